@@ -1,7 +1,49 @@
 import Lox.Drv.Common
-/-! Driver ops of the LR vertical: `handle op payload` answers one protocol line, `none` = unknown op. -/
-namespace Lox.LR
+import Lox.LR.Model
+import Lox.LR.Sugar
+/-! Driver ops of the LR vertical.
 
-def handle (_op _payload : String) : Option String := none
+`lr.parse <withBounds 0|1> <fuel> | _rules | _termCounts | _actions | _goto | kinds | tokens`
+  answer: `<acc|rej|timeout|panic> r=<ReadToken calls> ; <event> ; <event> …`
+  events, oldest first: `A <value>` for every user action call (value = rendered result),
+  `B <value> <begin> <end>` for every `_onBounds` call. -/
+namespace Lox.LR
+open Lox.Drv
+
+def parseArr (s : String) : Option (Array Int) := (parseInts s).map List.toArray
+
+def showOutcome : Outcome → String
+  | .accept => "acc"
+  | .reject => "rej"
+  | .timeout => "timeout"
+  | .panic _ => "panic"
+
+def showEvent (kinds : Array Nat) : Event → Option String
+  | .act p kids =>
+    if Kind.ofCode (kinds[p]?.getD 0) == .user then
+      some ("A " ++ (interp kinds (.node p kids)).render)
+    else none
+  | .bounds _ v b e => some ("B " ++ (interp kinds v).render ++ " " ++ toString b ++ " " ++ toString e)
+
+def handleParse (payload : String) : Option String := do
+  match payload.splitOn "|" with
+  | [hd, rules, tcs, acts, gotos, kinds, toks] =>
+    let hd ← parseNats hd
+    let (wb, fuel) ← match hd with
+      | [wb, fuel] => some (wb, fuel)
+      | _ => none
+    let T : Tables := { rules := ← parseArr rules, termCounts := ← parseArr tcs,
+                        actions := ← parseArr acts, gotos := ← parseArr gotos }
+    let kinds := (← parseNats kinds).toArray
+    let toks := (← parseNats toks).toArray
+    let (o, s) := parse T toks (wb == 1) fuel
+    let evs := s.log.reverse.filterMap (showEvent kinds)
+    some (" ; ".intercalate ((showOutcome o ++ " r=" ++ toString s.reads) :: evs))
+  | _ => none
+
+def handle (op payload : String) : Option String :=
+  match op with
+  | "lr.parse" => handleParse payload
+  | _ => none
 
 end Lox.LR
